@@ -481,7 +481,24 @@ func (w *World) Read(n *node.Node, h uint64) *Verdict {
 		hs = append(hs, node.HashHex(b))
 	}
 	line := map[string]interface{}{"op": "read", "node": n.Name, "h": h, "page": hs}
-	return w.finishWith(line, n, &defs{}, nil, "read", nil)
+	// … and what a peer receives for the same request through the node's blocks controller, decoded by the receiver's
+	// decoder: it must be the blocks the node holds (C15), whatever was requested and whatever the chain did before
+	d := &defs{}
+	var extra []*ledger.Block
+	func() {
+		defer w.guard("read")
+		if b, err := n.ServeBlocks(h); err == nil {
+			served := []string{}
+			for _, x := range decodeBlocks(b) {
+				served = append(served, node.HashHex(x))
+				extra = append(extra, x)
+			}
+			line["served"] = served
+		} else {
+			line["served_error"] = err.Error()
+		}
+	}()
+	return w.finishWith(line, n, d, extra, "read", nil)
 }
 
 // Neighbour describes what one neighbour answers in a sync round.
